@@ -8,9 +8,9 @@ Compositionality of the line state machine (property C10): helper lemmas.
 from now on, and nothing else. The ghost fields are erased (`src` of every row and buffered line,
 the line index `n`, `orderOk`); the rows already handed to the painter's output buffer are merged
 into the rows written (`out ++ buf`: the buffer is always emitted before anything is written
-directly); the plain-diff counter is clamped to its "not relevant" value; two merge-conflict commit
-names are dropped where they are dead (`theirs` always, `ours` outside a conflict region: both are
-overwritten before they are read).
+directly); the plain-diff counter is clamped to its "not relevant" value; the merge-conflict commit
+names are dropped where they are dead (`theirs` always; `ours` and the ancestral name outside a conflict
+region: a region sets the first and clears the second when it starts).
 
 1. `N_step` … `cont_congr`: the machine is a function of its normal form:
    `N a = N b → N (step a l) = N (step b l)`, for every handler, the chain, `step`, `runFrom`,
@@ -78,6 +78,7 @@ def N (m : M) : M :=
     mcAnc := m.mcAnc.map HLine.er
     mcTheirs := m.mcTheirs.map HLine.er
     mcNameOurs := keepIf (isMergeConflict m.st) m.mcNameOurs
+    mcNameAnc := keepIf (isMergeConflict m.st) m.mcNameAnc
     mcNameTheirs := none
     n := 0
     orderOk := true }
@@ -107,7 +108,7 @@ variable (m : M)
 @[simp] theorem N_mcAnc : (N m).mcAnc = m.mcAnc.map HLine.er := rfl
 @[simp] theorem N_mcTheirs : (N m).mcTheirs = m.mcTheirs.map HLine.er := rfl
 @[simp] theorem N_mcNameOurs : (N m).mcNameOurs = keepIf (isMergeConflict m.st) m.mcNameOurs := rfl
-@[simp] theorem N_mcNameAnc : (N m).mcNameAnc = m.mcNameAnc := rfl
+@[simp] theorem N_mcNameAnc : (N m).mcNameAnc = keepIf (isMergeConflict m.st) m.mcNameAnc := rfl
 @[simp] theorem N_mcNameTheirs : (N m).mcNameTheirs = none := rfl
 @[simp] theorem N_n : (N m).n = 0 := rfl
 @[simp] theorem N_orderOk : (N m).orderOk = true := rfl
@@ -200,7 +201,7 @@ def updOut (x : M) (rows : List Row) : M := { x with out := x.out ++ rows }
 def updModeInfo (x : M) (v : Str) : M := { x with modeInfo := v }
 def updHandled (x : M) : M := { x with handledPair := x.currentPair }
 /-- a state outside a merge conflict: the name of "ours" is dead -/
-def updStQ (x : M) (s : State) : M := { x with st := s, mcNameOurs := none }
+def updStQ (x : M) (s : State) : M := { x with st := s, mcNameOurs := none, mcNameAnc := none }
 
 @[simp] theorem Row.er_mk (k : RowKind) (t : Str) (s : Nat) : Row.er ⟨k, t, s⟩ = ⟨k, t, 0⟩ := rfl
 @[simp] theorem HLine.er_mk (k : RowKind) (p t : Str) (s : Nat) : HLine.er ⟨k, p, t, s⟩ = ⟨k, p, t, 0⟩ := rfl
@@ -295,9 +296,10 @@ theorem shouldSkipLine_eq (cfg : Cfg) (m : M) : shouldSkipLine cfg m = shouldSki
 
 -- ---------------------------------------------------------------- more folded updates
 
-def updStO (x : M) (s : State) (o : Option Str) : M := { x with st := s, mcNameOurs := o }
+def updStO (x : M) (s : State) (o a : Option Str) : M := { x with st := s, mcNameOurs := o, mcNameAnc := a }
 theorem N_updStO (x : M) (s : State) :
-    N { x with st := s } = updStO (N x) s.er (keepIf (isMergeConflict s) x.mcNameOurs) := rfl
+    N { x with st := s } =
+      updStO (N x) s.er (keepIf (isMergeConflict s) x.mcNameOurs) (keepIf (isMergeConflict s) x.mcNameAnc) := rfl
 
 theorem N_direct_emit (m : M) (rows : List Row) :
     N (direct (emit m) rows) = updOut (N m) (rows.map Row.er) := by
@@ -858,7 +860,7 @@ def mcRowsN (cfg : Cfg) (k : M) (theirs : Str) : List Row :=
 
 def paintedN (cfg : Cfg) (k : M) (theirs : Str) (mp : MergeParents) : M :=
   { k with out := k.out ++ mcRowsN cfg k theirs, mcOurs := [], mcAnc := [], mcTheirs := [],
-           st := .hunkZero (.combined mp false), mcNameOurs := none }
+           st := .hunkZero (.combined mp false), mcNameOurs := none, mcNameAnc := none }
 
 theorem N_paintMC (cfg : Cfg) (m : M) (c : Str) (mp : MergeParents) (h : isMergeConflict m.st = true) :
     N (paintMergeConflict cfg { m with mcNameTheirs := some c } mp) = paintedN cfg (N m) c mp := by
@@ -970,9 +972,10 @@ theorem N_storeOr {o o' : Option M} {a a' : Except String M} (ho : NO o' = NO o)
         | error e' => simp at ha
         | ok y' => simp only [NE_ok, Except.ok.injEq] at ha; simp [ha]
 
-def setStOurs (x : M) (s : State) (o : Option Str) : M := { x with st := s, mcNameOurs := o }
-theorem N_setStOurs (x : M) (s : State) (o : Option Str) :
-    N { x with st := s, mcNameOurs := o } = updStO (N x) s.er (keepIf (isMergeConflict s) o) := rfl
+def setStOurs (x : M) (s : State) (o a : Option Str) : M := { x with st := s, mcNameOurs := o, mcNameAnc := a }
+theorem N_setStOurs (x : M) (s : State) (o a : Option Str) :
+    N { x with st := s, mcNameOurs := o, mcNameAnc := a } =
+      updStO (N x) s.er (keepIf (isMergeConflict s) o) (keepIf (isMergeConflict s) a) := rfl
 
 theorem N_handleMergeConflict (cfg : Cfg) (m : M) (l : L) :
     NR (handleMergeConflict cfg (N m) l) = NR (handleMergeConflict cfg m l) := by
@@ -1199,8 +1202,8 @@ theorem P_updSt (p : List Row) (x : M) (s : State) : P p { x with st := s } = { 
 theorem P_updModeInfo (p : List Row) (x : M) (v : Str) : P p { x with modeInfo := v } = { P p x with modeInfo := v } := rfl
 theorem P_updHandled (p : List Row) (x : M) :
     P p { x with handledPair := x.currentPair } = { P p x with handledPair := (P p x).currentPair } := rfl
-theorem P_updStOurs (p : List Row) (x : M) (s : State) (o : Option Str) :
-    P p { x with st := s, mcNameOurs := o } = { P p x with st := s, mcNameOurs := o } := rfl
+theorem P_updStOurs (p : List Row) (x : M) (s : State) (o a : Option Str) :
+    P p { x with st := s, mcNameOurs := o, mcNameAnc := a } = { P p x with st := s, mcNameOurs := o, mcNameAnc := a } := rfl
 
 theorem P_writeGeneric (p : List Row) (cfg : Cfg) (m : M) (t r : Str) :
     P p (writeGeneric cfg m t r) = writeGeneric cfg (P p m) t r := by
@@ -1805,7 +1808,6 @@ def sourceOk (sA : M) (d : L) : Prop := sA.source = .unknown ∨ sA.source = det
 def counterOk (sA : M) (d : L) : Prop := clampC (stepInit sA d).counter = clampC (stepInit {} d).counter
 def modeOk (cfg : Cfg) (sA : M) : Prop := sA.modeInfo = [] ∨ ¬ (cfg.fileStyle.isOmitted ∧ ¬ cfg.colorOnly)
 def mcLinesOk (sA : M) : Prop := sA.mcOurs = [] ∧ sA.mcAnc = [] ∧ sA.mcTheirs = []
-def mcAncOk (sA : M) : Prop := sA.mcNameAnc = none
 def pendingOk (cfg : Cfg) (sA : M) (d : L) : Prop :=
   (pendingRows cfg { stepInit sA d with st := diffLineState d }).map Row.er = (pendingRows cfg sA).map Row.er
 
@@ -1813,7 +1815,6 @@ instance (sA : M) (d : L) : Decidable (sourceOk sA d) := by unfold sourceOk; inf
 instance (sA : M) (d : L) : Decidable (counterOk sA d) := by unfold counterOk; infer_instance
 instance (cfg : Cfg) (sA : M) : Decidable (modeOk cfg sA) := by unfold modeOk; infer_instance
 instance (sA : M) : Decidable (mcLinesOk sA) := by unfold mcLinesOk; infer_instance
-instance (sA : M) : Decidable (mcAncOk sA) := by unfold mcAncOk; infer_instance
 instance (cfg : Cfg) (sA : M) (d : L) : Decidable (pendingOk cfg sA d) := by unfold pendingOk; infer_instance
 
 /-- The state `sA` reached at the end of a section and the `diff ` line `d` that opens the next one
@@ -1822,10 +1823,9 @@ form a clean section boundary:
 * `counterOk`: the plain-diff `--- ` counter stands where a fresh run would put it;
 * `modeOk`: no mode information survives the pending header (it does when the header is omitted);
 * `mcLinesOk`: no merge-conflict lines are held back (the section did not end inside a conflict region);
-* `mcAncOk`: no ancestral commit name is remembered from a diff3-style conflict;
 * `pendingOk`: the pending file header is written (or not) at the `diff ` line exactly as at end of input. -/
 def SectionBoundary (cfg : Cfg) (sA : M) (d : L) : Prop :=
-  sourceOk sA d ∧ counterOk sA d ∧ modeOk cfg sA ∧ mcLinesOk sA ∧ mcAncOk sA ∧ pendingOk cfg sA d
+  sourceOk sA d ∧ counterOk sA d ∧ modeOk cfg sA ∧ mcLinesOk sA ∧ pendingOk cfg sA d
 
 instance (cfg : Cfg) (sA : M) (d : L) : Decidable (SectionBoundary cfg sA d) := by
   unfold SectionBoundary; infer_instance
@@ -1883,17 +1883,17 @@ theorem pendingMode_atDiffLine (cfg : Cfg) (m : M) (d : L) (h : modeOk cfg m) :
 
 theorem boundary_reset (cfg : Cfg) (sA : M) (d : L) (hb : SectionBoundary cfg sA d) :
     N (afterReset cfg sA d) = P (sectionRows cfg sA) (N (afterReset cfg {} d)) := by
-  obtain ⟨hs, hc, hm, hl, ha, hp⟩ := hb
+  obtain ⟨hs, hc, hm, hl, hp⟩ := hb
   unfold afterReset
   rw [N_diffLineFields, N_diffLineFields, N_pendingDiffName_explicit, N_pendingDiffName_explicit]
   rw [(afterReset_init cfg d).1, (afterReset_init cfg d).2]
-  have e1 : ∀ m : M, N (atDiffLine m d) = updStO (N (flushMP (stepInit m d))) (diffLineState d) none := by
+  have e1 : ∀ m : M, N (atDiffLine m d) = updStO (N (flushMP (stepInit m d))) (diffLineState d) none none := by
     intro m; unfold atDiffLine; rw [N_updStO]; simp
   have e2 : ∀ m : M, N (stepInit m d) = { N m with source := (stepInit m d).source, counter := clampC (stepInit m d).counter } := by
     intro m; rw [stepInit_frame]; simp [N]
   rw [e1, e1, N_flushMP_explicit, N_flushMP_explicit, e2, e2]
   simp [diffLineFields, updPending, updStO, P, N, sectionRows]
-  refine ⟨?_, pendingMode_atDiffLine cfg sA d hm, hc, ?_, hl.1, hl.2.1, hl.2.2, ha⟩
+  refine ⟨?_, pendingMode_atDiffLine cfg sA d hm, hc, ?_, hl.1, hl.2.1, hl.2.2⟩
   · rw [stepInit_source, stepInit_source]
     unfold sourceOk at hs
     rcases hs with h | h
